@@ -153,13 +153,19 @@ func (rp recvProp) Exec(c Case) []string {
 
 // reconnect does what Client.Resume does after the Disconnected event - Client.connect on the kept Session - against
 // a scripted server that offers stream management and confirms the resumption, and reports the <resume/> request.
-func reconnect(client *xmpp.Client, cfg *xmpp.Config, sess *xmpp.Session, smid string) string {
+func reconnect(client *xmpp.Client, cfg *xmpp.Config, sess *xmpp.Session, smid string, refuse bool) string {
+	reply := "<resumed xmlns='urn:xmpp:sm:3' previd='" + smid + "' h='0'/>"
+	if refuse {
+		// the server refuses the resumption: a fresh session is bound and stream management enabled anew
+		reply = "<failed xmlns='urn:xmpp:sm:3'><item-not-found xmlns='urn:ietf:params:xml:ns:xmpp-stanzas'/></failed>"
+	}
 	script := "<?xml version='1.0'?><stream:stream xmlns='jabber:client' xmlns:stream='http://etherx.jabber.org/streams' version='1.0' id='s2'>" +
 		"<stream:features><mechanisms xmlns='urn:ietf:params:xml:ns:xmpp-sasl'><mechanism>PLAIN</mechanism></mechanisms><sm xmlns='urn:xmpp:sm:3'/></stream:features>" +
 		"<success xmlns='urn:ietf:params:xml:ns:xmpp-sasl'/>" +
 		"<stream:features><bind xmlns='urn:ietf:params:xml:ns:xmpp-bind'/><sm xmlns='urn:xmpp:sm:3'/></stream:features>" +
-		"<resumed xmlns='urn:xmpp:sm:3' previd='" + smid + "' h='0'/>" +
-		"<iq type='result' id='x'><bind xmlns='urn:ietf:params:xml:ns:xmpp-bind'><jid>u@localhost/r</jid></bind></iq>"
+		reply +
+		"<iq type='result' id='x'><bind xmlns='urn:ietf:params:xml:ns:xmpp-bind'><jid>u@localhost/r</jid></bind></iq>" +
+		"<enabled xmlns='urn:xmpp:sm:3' id='sm-new' resume='true'/>"
 	st2 := newStub(strings.NewReader(script))
 	if _, err := stanza.InitStream(st2.GetDecoder()); err != nil {
 		return "initstream-failed"
@@ -197,6 +203,13 @@ func reconnect(client *xmpp.Client, cfg *xmpp.Config, sess *xmpp.Session, smid s
 				}
 				j := strings.Index(s[i+len(name)+2:], `"`)
 				return s[i+len(name)+2 : i+len(name)+2+j]
+			}
+			if refuse {
+				// what the NEW session starts with
+				if client.Session == nil {
+					return "nosession"
+				}
+				return hx(attr("previd")) + ":" + attr("h") + ":" + hx(client.Session.SMState.Id) + ":" + strconv.Itoa(int(client.Session.SMState.Inbound))
 			}
 			return hx(attr("previd")) + ":" + attr("h")
 		}
@@ -293,7 +306,9 @@ func (rp *recvProp) run(c Case, component bool, smid string, n0 int, rng *rand.R
 			xmpp.VerifComponentRecv(comp)
 		}()
 	} else {
-		cfg := &xmpp.Config{Jid: "u@localhost/r", Credential: xmpp.Password("p"), StreamManagementEnable: smid != ""}
+		// client-noresume: the session after <enabled/> WITHOUT resumption - EnableStreamManagement has switched
+		// Config.StreamManagementEnable off, stream management (counting, answering <r/>) goes on
+		cfg := &xmpp.Config{Jid: "u@localhost/r", Credential: xmpp.Password("p"), StreamManagementEnable: smid != "" && c.Variant[0] != "client-noresume"}
 		client, err := newStubClient(cfg, router, eh, st)
 		rcClient, rcCfg = client, cfg
 		if err != nil {
@@ -380,7 +395,13 @@ func (rp *recvProp) run(c Case, component bool, smid string, n0 int, rng *rand.R
 	}
 	if c.Variant[0] == "client-resume" && rcClient != nil {
 		mu.Unlock()
-		rp.resumeObs = reconnect(rcClient, rcCfg, rcSess, smid)
+		refuse := false
+		for _, op := range c.Ops {
+			if op[0] == "resume" && len(op) > 1 && op[1] == "refused" {
+				refuse = true
+			}
+		}
+		rp.resumeObs = reconnect(rcClient, rcCfg, rcSess, smid, refuse)
 		mu.Lock()
 	}
 	return s
@@ -407,8 +428,14 @@ func (rp recvProp) Generate(rng *rand.Rand, tier string, st *Stats) []Case {
 		cases = append(cases, Case{ID: fmt.Sprintf("%s-%d", rp.id, n), Variant: []string{who, hx(smid), strconv.Itoa(n0)}, Ops: ops})
 		n++
 	}
+	nres := 0
 	mkResume := func(smid string, n0 int, ops [][]string) {
-		ops = append(ops, []string{"finish"}, []string{"resume"})
+		nres++
+		if nres%3 == 0 {
+			ops = append(ops, []string{"finish"}, []string{"resume", "refused"})
+		} else {
+			ops = append(ops, []string{"finish"}, []string{"resume"})
+		}
 		cases = append(cases, Case{ID: fmt.Sprintf("%s-%d", rp.id, n), Variant: []string{"client-resume", hx(smid), strconv.Itoa(n0)}, Ops: ops})
 		n++
 	}
@@ -481,6 +508,12 @@ func (rp recvProp) Generate(rng *rand.Rand, tier string, st *Stats) []Case {
 			}
 			if rp.id == "C09" && ex%7 == 0 {
 				mkResume("sm1", ex%3, seq(kinds)) // the count presented by the resumption request that follows
+			}
+			if rp.id == "C09" && ex%11 == 0 {
+				// stream management enabled without resumption: the config flag is off, the count goes on
+				ops := append(seq(kinds), []string{"finish"})
+				cases = append(cases, Case{ID: fmt.Sprintf("%s-%d", rp.id, n), Variant: []string{"client-noresume", hx("sm1"), "0"}, Ops: ops})
+				n++
 			}
 			return
 		}
